@@ -76,6 +76,22 @@ class Inst(SpecObj):
         return hash(("inst", self._cls))
 
 
+class ByteBuf:
+    """immutable stand-in for an io.BytesIO used append-only (write at the end, getvalue, tell = fill level)"""
+
+    def __init__(self, content=b""):
+        self.content = content
+
+    def __eq__(self, other):
+        return isinstance(other, ByteBuf) and other.content == self.content
+
+    def __hash__(self):
+        return hash(("bytebuf", self.content))
+
+    def __repr__(self):
+        return "ByteBuf(%r)" % (self.content,)
+
+
 def refine(ex, test_ast, env, label):
     """environment on the `label` edge of a test that evaluated to UNKNOWN: a bare variable
     (or `not var`) test teaches its truthiness"""
@@ -109,6 +125,14 @@ PURE_METHODS = {"lower", "upper", "strip", "lstrip", "rstrip", "startswith", "en
 def _is_builtin_class(name):
     import builtins
     return isinstance(getattr(builtins, name, None), type)
+
+
+class EvalRaise(Exception):
+    """evaluating an expression on known values raises a builtin exception (int('x') -> ValueError)"""
+
+    def __init__(self, name):
+        Exception.__init__(self, name)
+        self.name = name
 
 
 class Outcome:
@@ -184,7 +208,7 @@ class Explorer:
                 ci = self.repo._classes.get(cq)
                 if ci is not None and e.attr in ci.attrs:
                     try:
-                        v = self.repo.fold(ci.module, ci.attrs[e.attr], symbolic=True)
+                        v = self.repo.fold(ci.module, ci.attrs[e.attr], symbolic=True, scope=ci.attrs)
                     except Exception:
                         break
                     if isinstance(v, list):
@@ -410,6 +434,12 @@ class Explorer:
                     return PURE_FUNCS[qf](*args, **kws)
                 except Exception:
                     return UNKNOWN
+            if qf == "io.BytesIO" and not e.args and not e.keywords:
+                return ByteBuf(b"")
+            if isinstance(e.func, ast.Attribute) and e.func.attr in ("getvalue", "tell") and not e.args:
+                bb = self.ev(e.func.value, env)
+                if isinstance(bb, ByteBuf):
+                    return bb.content if e.func.attr == "getvalue" else len(bb.content)
             if isinstance(e.func, ast.Attribute) and e.func.attr == "format":
                 recv = self.ev(e.func.value, env)
                 if isinstance(recv, str):
@@ -467,6 +497,10 @@ class Explorer:
                     return UNKNOWN
                 try:
                     return {"len": len, "str": str, "bool": bool, "int": int, "min": min, "max": max}[e.func.id](*args)
+                except ValueError:
+                    if e.func.id == "int" and all(isinstance(a, (str, bytes, int)) and not isinstance(a, bool) for a in args):
+                        raise EvalRaise("ValueError")
+                    return UNKNOWN
                 except Exception:
                     return UNKNOWN
             if isinstance(e.func, ast.Name) and e.func.id == "hasattr" and len(e.args) == 2:
@@ -545,6 +579,14 @@ class Explorer:
 
     # ------------------------------------------------------------- effects
     def apply(self, node, env):
+        try:
+            return self._apply(node, env)
+        except EvalRaise as r:
+            new = dict(env)
+            new["__raise__"] = r.name
+            return new
+
+    def _apply(self, node, env):
         st = node.ast
         if node.kind != "stmt":
             return env
@@ -613,6 +655,20 @@ class Explorer:
         if isinstance(st, ast.Expr) and isinstance(st.value, ast.Call) and isinstance(st.value.func, ast.Attribute):
             c = st.value
             recv0 = self.ev(c.func.value, env)
+            if isinstance(recv0, ByteBuf):
+                kb = self.key_of(c.func.value)
+                if kb is not None and kb in env and c.func.attr == "write" and len(c.args) == 1:
+                    a0 = self.ev(c.args[0], env)
+                    new = dict(env)
+                    new[kb] = ByteBuf(recv0.content + a0) if isinstance(a0, bytes) else UNKNOWN
+                    return new
+                if c.func.attr in ("seek", "flush"):
+                    return env
+                if kb is not None and kb in env:
+                    new = dict(env)
+                    new[kb] = UNKNOWN
+                    return new
+                return env
             if isinstance(recv0, SpecObj) and callable(getattr(recv0, c.func.attr, None)) and not c.keywords:
                 # a method of a specification-side stand-in (defined by the rule): run it for its recording effect
                 args = [self.ev(a, env) for a in c.args]
@@ -770,7 +826,14 @@ class Explorer:
                 outcomes.append(Outcome("stop", node, env, events, path))
                 continue
             if node.kind == "test":
-                v = self.ev(node.ast, env)
+                try:
+                    v = self.ev(node.ast, env)
+                except EvalRaise as r:
+                    hs = [b for b, l in node.out if l == "exc"]
+                    hh = [b for b in hs if b.kind == "handler" and (b.ast.type is None or r.name in ast.unparse(b.ast.type) or "Exception" in ast.unparse(b.ast.type))]
+                    for b in (hh[:1] or hs):
+                        stack.append((b, env, events, path, None))
+                    continue
                 if v is UNKNOWN:
                     self.unknown_tests.append(node)
                     labels = ("true", "false")
@@ -783,7 +846,10 @@ class Explorer:
                         stack.append((b, env, events, path, None))
                 continue
             if node.kind == "for":
-                seq = self.ev(node.ast.iter, env)
+                try:
+                    seq = self.ev(node.ast.iter, env)
+                except EvalRaise:
+                    seq = UNKNOWN
                 if seq is not UNKNOWN and isinstance(seq, (tuple, list)):
                     ik = "__iter__%d" % node.id
                     idx = env.get(ik, 0)
@@ -837,6 +903,20 @@ def _pairs(target, value):
 
 
 def _bind(target, value):
+    if isinstance(target, (ast.Tuple, ast.List)) and any(isinstance(t, ast.Starred) for t in target.elts):
+        stars = [i for i, t in enumerate(target.elts) if isinstance(t, ast.Starred)]
+        if len(stars) == 1 and isinstance(value, (tuple, list)) and len(value) >= len(target.elts) - 1:
+            i = stars[0]
+            after = len(target.elts) - i - 1
+            for t, v in zip(target.elts[:i], value[:i]):
+                yield from _bind(t, v)
+            yield target.elts[i].value, tuple(value[i:len(value) - after])
+            for t, v in zip(target.elts[i + 1:], value[len(value) - after:] if after else ()):
+                yield from _bind(t, v)
+        else:
+            for t in target.elts:
+                yield from _bind(t.value if isinstance(t, ast.Starred) else t, UNKNOWN)
+        return
     if isinstance(target, (ast.Tuple, ast.List)):
         if isinstance(value, (tuple, list)) and len(value) == len(target.elts):
             for t, v in zip(target.elts, value):
